@@ -265,4 +265,118 @@ theorem kernel_decimal_checked_mul_int (prof : Profile) (d : Dec) (i : Int) :
 theorem kernel_int_checked_mul_decimal (prof : Profile) (i : Int) (d : Dec) :
     Gen.K.int_checked_mul_decimal prof i d = .ok (checkedMulInt d i) := Kernels.int_checked_mul_decimal_eq prof i d
 
+/-! ### algebraic laws
+Model-level corollaries: equalities of `Outcome` values, so the two sides also panic together (and with the same panic kind). -/
+
+/-- the rounding core of `*` / `mul_rounded` does not depend on the operand order -/
+theorem checkedMulRounded_comm (hw : WideMul) (prof : Profile) (tm : Mode) (x y : Dec) (n : Nat) (hx : Dom x) (hy : Dom y) :
+    checkedMulRounded prof tm x y n = checkedMulRounded prof tm y x n := by
+  obtain ⟨a, p⟩ := x
+  obtain ⟨b, q⟩ := y
+  obtain ⟨ha0, ha1, hp⟩ := hx
+  obtain ⟨hb0, hb1, hq⟩ := hy
+  simp only at ha0 ha1 hp hb0 hb1 hq
+  unfold checkedMulRounded
+  simp only []
+  rw [Int.add_comm (q : Int) (p : Int), Int.mul_comm b a]
+  rw [plainU8_ok prof (x := (p : Int) + (q : Int)) (by omega) (by omega)]
+  simp only [Outcome.bind_ok]
+  cases hh : fitsI128 (a * b)
+  · rw [checkedI128_none hh]
+    simp only []
+    have hsh : ((p : Int) + (q : Int)).toNat - n ≤ 38 := by omega
+    unfold i128MulDivTenPowRounded
+    rw [tenPow_ok _ hsh]
+    simp only [Outcome.bind_ok]
+    have hpw := pow10_pos (((p : Int) + (q : Int)).toNat - n)
+    have hpl := pow10_le_max' hsh
+    rw [hw prof a b _ ⟨ha0, ha1⟩ ⟨hb0, hb1⟩ ⟨hpw, hpl⟩, hw prof b a _ ⟨hb0, hb1⟩ ⟨ha0, ha1⟩ ⟨hpw, hpl⟩, Int.mul_comm b a]
+  · rw [checkedI128_some hh]
+
+/-- `x * y = y * x`, as outcomes, unless BOTH operands are representations of one with different numbers of fractional digits
+    (see `mul_ones`: the short cuts then return the LEFT operand, e.g. `1.0 * 1 = 1.0` but `1 * 1.0 = 1`) -/
+theorem mul_commutes (hw : WideMul) (prof : Profile) (tm : Mode) (x y : Dec) (hx : Dom x) (hy : Dom y)
+    (h11 : x.coeff = (10 : Int) ^ x.nfrac → y.coeff = (10 : Int) ^ y.nfrac → x.nfrac = y.nfrac) :
+    mul prof tm x y = mul prof tm y x := by
+  have hcore := checkedMulRounded_comm hw prof tm x y Gen.MAX_N_FRAC_DIGITS hx hy
+  obtain ⟨a, p⟩ := x
+  obtain ⟨b, q⟩ := y
+  have hp : p ≤ 18 := hx.2.2
+  have hq : q ≤ 18 := hy.2.2
+  simp only at h11
+  unfold mul
+  simp only [eqZero]
+  by_cases h0 : a = 0 ∨ b = 0
+  · have h1 : (decide (a = 0) || decide (b = 0)) = true := by simpa using h0
+    have h2 : (decide (b = 0) || decide (a = 0)) = true := by simpa using h0.symm
+    simp [h1, h2]
+  · have h1 : (decide (a = 0) || decide (b = 0)) = false := by simpa using h0
+    have h2 : (decide (b = 0) || decide (a = 0)) = false := by (have : ¬ (b = 0 ∨ a = 0) := fun h => h0 h.symm; simpa using this)
+    simp only [h1, h2, if_false, Bool.false_eq_true]
+    rw [eqOne_eq ⟨b, q⟩ hq, eqOne_eq ⟨a, p⟩ hp]
+    simp only [Outcome.bind_ok]
+    by_cases hb : b = (10 : Int) ^ q <;> by_cases ha : a = (10 : Int) ^ p
+    · have := h11 ha hb
+      subst this
+      simp [ha, hb]
+    · simp [ha, hb]
+    · simp [ha, hb]
+    · simp only [ha, hb, decide_false, Bool.false_eq_true, if_false, hcore]
+
+/-- both operands representations of one: the short cut returns the left operand, whatever the right one's digits -/
+theorem mul_ones (prof : Profile) (tm : Mode) (p q : Nat) (hq : q ≤ 18) :
+    mul prof tm ⟨(10 : Int) ^ p, p⟩ ⟨(10 : Int) ^ q, q⟩ = .ok ⟨(10 : Int) ^ p, p⟩ := by
+  have hp0 : ¬ (10 : Int) ^ p = 0 := Int.ne_of_gt (pow10_pos p)
+  have hq0 : ¬ (10 : Int) ^ q = 0 := Int.ne_of_gt (pow10_pos q)
+  unfold mul
+  simp only [eqZero]
+  rw [eqOne_eq ⟨(10 : Int) ^ q, q⟩ hq]
+  simp [hp0, hq0]
+
+/-- `x * 1`: `x` itself — except that every zero is returned as `Decimal::ZERO` (the zero test comes first); every `x` -/
+theorem mul_one_right (prof : Profile) (tm : Mode) (x : Dec) :
+    mul prof tm x Dec.ONE = .ok (if x.coeff = 0 then Dec.ZERO else x) := by
+  have h1 : eqOne Dec.ONE = .ok true := by decide
+  unfold mul
+  simp only [eqZero, h1]
+  by_cases h0 : x.coeff = 0
+  · simp [h0]
+  · have : ¬ Dec.ONE.coeff = 0 := by decide
+    simp [h0, this]
+
+/-- `1 * x`: `x` itself — except that every zero is returned as `Decimal::ZERO` and every representation of one as
+    `Decimal::ONE` (the test `eq_one(other)` precedes `eq_one(self)`: `1 * 1.00 = 1`, while `1.00 * 1 = 1.00`) -/
+theorem mul_one_left (prof : Profile) (tm : Mode) (x : Dec) (hx : Dom x) :
+    mul prof tm Dec.ONE x =
+      .ok (if x.coeff = 0 then Dec.ZERO else if x.coeff = (10 : Int) ^ x.nfrac then Dec.ONE else x) := by
+  have h1 : eqOne Dec.ONE = .ok true := by decide
+  have hn : ¬ Dec.ONE.coeff = 0 := by decide
+  unfold mul
+  simp only [eqZero]
+  rw [eqOne_eq x hx.2.2, h1]
+  by_cases h0 : x.coeff = 0
+  · simp [h0]
+  · by_cases hone : x.coeff = (10 : Int) ^ x.nfrac
+    · have hp0 : ¬ (10 : Int) ^ x.nfrac = 0 := Int.ne_of_gt (pow10_pos _)
+      simp [hn, hone, hp0]
+    · simp [h0, hn, hone]
+
+/-- `x * 0 = 0 * x = Decimal::ZERO` for every `x` and every representation of zero (nothing else is evaluated) -/
+theorem mul_zero_any (prof : Profile) (tm : Mode) (x z : Dec) (hz : z.coeff = 0) :
+    mul prof tm x z = .ok Dec.ZERO ∧ mul prof tm z x = .ok Dec.ZERO := by
+  unfold mul
+  simp [eqZero, hz]
+
+example : mul Profile.dev .heven ⟨-15, 1⟩ ⟨25, 2⟩ = .ok ⟨-375, 3⟩ ∧ mul Profile.dev .heven ⟨25, 2⟩ ⟨-15, 1⟩ = .ok ⟨-375, 3⟩ := by
+  decide
+example : mul Profile.release .heven ⟨1000000000000000005, 18⟩ ⟨15, 1⟩ = .ok ⟨1500000000000000008, 18⟩ ∧
+    mul Profile.release .heven ⟨15, 1⟩ ⟨1000000000000000005, 18⟩ = .ok ⟨1500000000000000008, 18⟩ := by decide
+-- the counter-example to unrestricted commutativity: both operands are ones
+example : mul Profile.dev .heven ⟨10, 1⟩ ⟨1, 0⟩ = .ok ⟨10, 1⟩ ∧ mul Profile.dev .heven ⟨1, 0⟩ ⟨10, 1⟩ = .ok ⟨1, 0⟩ := by decide
+example : mul Profile.dev .up ⟨-25, 1⟩ Dec.ONE = .ok ⟨-25, 1⟩ ∧ mul Profile.dev .up Dec.ONE ⟨-25, 1⟩ = .ok ⟨-25, 1⟩ ∧
+    mul Profile.dev .up ⟨0, 3⟩ Dec.ONE = .ok ⟨0, 0⟩ ∧ mul Profile.dev .up Dec.ONE ⟨100, 2⟩ = .ok ⟨1, 0⟩ ∧
+    mul Profile.dev .up ⟨100, 2⟩ Dec.ONE = .ok ⟨100, 2⟩ := by decide
+example : mul Profile.release .down ⟨-25, 1⟩ ⟨0, 7⟩ = .ok Dec.ZERO ∧ mul Profile.release .down Dec.ZERO ⟨I128_MAX, 18⟩ = .ok Dec.ZERO := by
+  decide
+
 end Fpdec.Props.C02
